@@ -255,17 +255,67 @@ pub fn check_c04(plan: &Plan, out: &RunOutput) -> Option<Violation> {
             format!("connect failed on a fault-free session: {:?}", out.connect),
         ));
     }
-    // Under an injected fault only the idle replies the client endpoint read completely (and
-    // intact) count: reading the last byte of a reply and returning it happen in one poll of the
-    // run loop, so such a reply has been handed to the loop, whatever fails afterwards.
+    // Under an injected fault the delivered events must be a prefix of what the server reported,
+    // between two bounds that do not depend on how an implementation buffers or dispatches:
+    //  * at least the changes of every idle reply the client demonstrably consumed — it read the
+    //    reply completely and afterwards wrote (or tried to write) a line other than `noidle`,
+    //    which the idle/noidle discipline only allows once that reply has been taken in;
+    //  * at most the changes whose own `changed:` line the client endpoint read completely
+    //    (an implementation may publish line by line, before the reply's final `OK`).
+    // Replies hit by injected garbage end both prefixes.
     let mut written = written_changes(out);
-    if !plan.fault_free() {
-        written.retain(|w| {
-            let r = &out.responses[w.2];
-            r.intact && r.fully_read_seq.is_some()
-        });
-    }
     let delivered = delivered_changes(out);
+    if !plan.fault_free() {
+        let consumed_after = |seq: u64| {
+            out.log.iter().any(|e| {
+                e.seq > seq
+                    && match &e.ev {
+                        Ev::ClientLine(t) | Ev::WriteAttempt(t) => {
+                            t.split(' ').next().unwrap_or("") != "noidle"
+                        }
+                        _ => false,
+                    }
+            })
+        };
+        let (mut k_min, mut k_max) = (0usize, 0usize);
+        let (mut must_open, mut may_open) = (true, true);
+        for r in out.responses.iter() {
+            let RespKind::Idle { changes, .. } = &r.kind else {
+                continue;
+            };
+            if !r.intact {
+                break;
+            }
+            let consumed = r.fully_read_seq.map(|s| consumed_after(s)).unwrap_or(false);
+            let mut off = r.start;
+            for c in changes {
+                off += "changed: ".len() + c.len() + 1;
+                if may_open && off <= out.s2c_read {
+                    k_max += 1;
+                } else {
+                    may_open = false;
+                }
+                if must_open && consumed {
+                    k_min += 1;
+                }
+            }
+            if !consumed {
+                must_open = false;
+            }
+            if r.fully_read_seq.is_none() {
+                break;
+            }
+        }
+        let k_max = k_max.max(k_min);
+        let n = delivered.len();
+        if n >= k_min
+            && n <= k_max
+            && delivered.iter().zip(written.iter()).all(|(d, w)| d.0 == w.0 && d.1 >= w.1)
+        {
+            return None;
+        }
+        written.truncate(if n < k_min { k_min } else { k_max });
+    }
     let wn: Vec<&str> = written.iter().map(|w| w.0.as_str()).collect();
     let dn: Vec<&str> = delivered.iter().map(|d| d.0.as_str()).collect();
     // first divergence
